@@ -52,12 +52,14 @@ def worker(job):
             forged_serial, genuine_serial = st["serial"], st["serial"] + 1
             st["serials"] = (forged_serial, genuine_serial)
             flags = (1 if c["aflag"] else 0) | (2 if c["pflag"] else 0)
-            kw = dict(mac=c["mac"], flags=flags, encrypt=c["enc"])
+            # whatever the request looked like, the agent answers as the configured user at the configured level
+            me = dict(user=cfg.user.encode(), auth_user=agent.users[cfg.user.encode()])
+            kw = dict(mac=c["mac"], flags=flags, encrypt=c["enc"], **me)
             if c["body"] == "report":
                 forged = agent.report(req, rigp.REPORT_WRONG_DIGEST, counter=forged_serial & 0x7FFFFFFF, **kw)
             else:
                 forged = agent.reply(req, [B.enc_varbind(OID, B.enc_int(forged_serial))], **kw)
-            genuine = agent.reply(req, [B.enc_varbind(OID, B.enc_int(genuine_serial))])
+            genuine = agent.reply(req, [B.enc_varbind(OID, B.enc_int(genuine_serial))], flags=1 | (2 if cfg.priv else 0), encrypt=bool(cfg.priv), mac="valid", **me)
             return [forged, genuine]
         return agent.discovery_or(req, f)
     agent = rigp.Agent(handler, users=[cfg.user_keys()]).start()
@@ -65,6 +67,14 @@ def worker(job):
     def mk():
         st["case"] = {"mac": "valid", "aflag": True, "pflag": bool(cfg.priv), "enc": bool(cfg.priv), "body": "response"}
         d = driver.Driver(cfg, agent, timeout=1.0).create()
+        if not cfg.engine_given and st["rng"].random() < 0.5:
+            # the very first discovery probe is lost; the context entry is retried on the same session
+            saved, agent.handler = agent.handler, None
+            quick = driver.Driver(cfg, agent, timeout=0.15).create()
+            quick.call("open")
+            agent.handler = saved
+            quick.call("open")
+            return quick
         d.call("open")
         return d
     drv = mk()
@@ -86,12 +96,12 @@ def worker(job):
             log = agent.log[-6:]
             rx = [t for k, t, _ in log if k == "rx"]
             tx = [t for k, t, _ in log if k == "tx"]
-            answered = bool(rx and tx and tx[-1] - rx[-1] < 0.3e9 and tx[-1] > rx[-1])
+            answered = bool(rx and tx and tx[-1] - rx[-1] < min(0.3, 0.4 * drv.timeout) * 1e9 and tx[-1] > rx[-1])
             st["timeouts"] = st["timeouts"] + 1 if answered else 0
             if st["timeouts"] >= 3:
                 if len(res["bad"]) < 400:
                     res["bad"].append({"sig": "genuine-dropped", "msg": "[%s] three consecutive requests timed out although the agent sent a genuine, correctly "
-                                       "authenticated reply to each within 0.3 s (engine boots/time now %d/%d)" % (cfg.key(), agent.boots, agent.time),
+                                       "authenticated reply to each well within the timeout (engine boots/time now %d/%d)" % (cfg.key(), agent.boots, agent.time),
                                        "case": c, "cfgkey": cfg.key()})
                 st["timeouts"] = 0
                 drv.close()
